@@ -41,6 +41,15 @@ fn shrink_seed(s: &SeedSpec) -> Vec<SeedSpec> {
         SeedSpec::FromRng(src) | SeedSpec::TryFromRng(src) => {
             let is_try = matches!(s, SeedSpec::TryFromRng(_));
             let mk = |x| if is_try { SeedSpec::TryFromRng(x) } else { SeedSpec::FromRng(x) };
+            if src.zero_run > 0 {
+                for z in [0, src.zero_run / 2, src.zero_run - src.zero_run / 8] {
+                    if z != src.zero_run {
+                        let mut c = src.clone();
+                        c.zero_run = z;
+                        out.push(mk(c));
+                    }
+                }
+            }
             if !src.prefix.is_empty() {
                 let mut c = src.clone();
                 c.prefix.clear();
